@@ -77,7 +77,14 @@ type CallRecord struct {
 	Consumed          uint64
 }
 
+type keptOutput struct {
+	call *Call
+	res  *Result
+	was  string
+}
+
 type Engine struct {
+	kept   []*keptOutput // the last few outputs, as the library returned them (not copies)
 	Spec   WorldSpec
 	W      *World
 	M      *Model
@@ -330,6 +337,24 @@ func (e *Engine) ExecCall(c *Call) *CallRecord {
 	res := e.W.Exec(c)
 	rec.Res = res
 	e.NCalls++
+	// what an earlier call returned (output transfers' data above all: the in-flight message) belongs to the node from
+	// then on; a later call of the same function object must not reach into it
+	for _, k := range e.kept {
+		if now := canonOutput(k.res); now != k.was {
+			props := []string{"C13", "C10"}
+			if transferFns[k.call.Fn] {
+				props = append(props, "C01") // the altered message is the tokens in flight
+			}
+			add(clause(props, k.call.Fn+"/earlier-output-changed-by-a-later-call", "the output returned by %s read\n  %s\nand after the later call %s it reads\n  %s", k.call.String(), k.was, c.String(), now))
+			k.was = now
+		}
+	}
+	if res.OK() {
+		e.kept = append(e.kept, &keptOutput{call: c, res: res, was: canonOutput(res)})
+		if len(e.kept) > 6 {
+			e.kept = e.kept[1:]
+		}
+	}
 	if e.PostExec != nil {
 		add(e.PostExec(c, res)...)
 	}
@@ -434,6 +459,40 @@ func (e *Engine) ExecCall(c *Call) *CallRecord {
 			if !okCreate && !isESDTSC(c.Caller) && !(c.Fn == refBuiltInFunctionESDTNFTCreateRoleTransfer && c.MsgID != 0) {
 				add(clause([]string{"C03", "C07"}, c.Fn+"/counter-changed", "%s by %s changed the nonce counter %q of %s", c.String(), shortAddr(c.Caller), d.Key, shortAddr(acct)))
 			}
+		}
+	}
+
+	// ---- C05: what the node applies from the output accounts besides the transfers, and which account records exist
+	for key, oa := range out.OutputAccounts {
+		if oa == nil {
+			continue
+		}
+		var extra []string
+		if oa.Nonce != 0 {
+			extra = append(extra, sprintf("Nonce=%d (the node sets the ACCOUNT nonce from it)", oa.Nonce))
+		}
+		if len(oa.StorageUpdates) > 0 {
+			extra = append(extra, sprintf("%d storage updates", len(oa.StorageUpdates)))
+		}
+		if len(oa.Code) > 0 || len(oa.CodeMetadata) > 0 || len(oa.CodeDeployerAddress) > 0 {
+			extra = append(extra, "code / code metadata / deployer")
+		}
+		if oa.Balance != nil && oa.Balance.Sign() != 0 {
+			extra = append(extra, sprintf("Balance=%v", oa.Balance))
+		}
+		if oa.BalanceDelta != nil && oa.BalanceDelta.Sign() != 0 && c.Fn != refBuiltInFunctionClaimDeveloperRewards {
+			extra = append(extra, sprintf("BalanceDelta=%v", oa.BalanceDelta))
+		}
+		if !bytes.Equal([]byte(key), oa.Address) {
+			extra = append(extra, sprintf("listed under %x but addressed to %x", key, oa.Address))
+		}
+		if len(extra) > 0 {
+			add(clause([]string{"C05"}, c.Fn+"/output-account-carries-state", "%s returned an output account for %s that carries %s: the node applies it to that account", c.String(), shortAddr(oa.Address), strings.Join(extra, ", ")))
+		}
+	}
+	for addr := range e.W.Shards[c.Shard].Accounts {
+		if a := []byte(addr); computeShard(a, uint32(e.M.NShards)) != uint32(c.Shard) && !refIsSystemAccount(a) {
+			add(clause([]string{"C05"}, c.Fn+"/account-record-of-another-shard", "after %s this shard's accounts database holds a record for %s, which lives on another shard", c.String(), shortAddr(a)))
 		}
 	}
 
@@ -816,6 +875,11 @@ func (e *Engine) Apply(op Op) *CallRecord {
 		for i := range e.W.Shards {
 			e.W.Shards[i].ConfirmEpoch(op.Epoch)
 			e.M.Shards[i].Epoch = op.Epoch
+		}
+	case "replace":
+		// a new instance of the named function takes the place of the factory's in the container (no effect on the model)
+		if err := e.W.Shards[op.Shard].ReplaceFn(string(op.Token)); err != nil {
+			panic("replace " + string(op.Token) + ": " + err.Error())
 		}
 	case "payable":
 		e.W.Shards[op.Shard].Payable[string(op.Addr)] = op.Mode
